@@ -20,3 +20,5 @@ more.register(globals(), {"C06", "C02", "C03", "C09"}, ["par3_mixed", "map_fail_
               {"par3_mixed": [("_a", "fa and not fb"), ("_b", "fb and not fa"), ("_ab", "fa and fb")], "map_in_par": [("_k%d_fail" % k, "kind == %d and (fo or fi >= 0)" % k) for k in range(3)],
                "par_in_map": [("_fail", "failing >= 0")], "branch_fail_state": [("_fail", "x == 1")],
                "par_longform": [("_fail", "fa or fb")]})
+
+more.register(globals(), {"C06", "C02", "C03", "C09"}, ["branch_retry_kinds", "late_nested"], {"branch_retry_kinds": [("_fail", "bfail")], "late_nested": [("_fail", "bfail")]})
